@@ -56,7 +56,7 @@ def py(x):
 
 
 VNONE = V(NONE, None)
-GEN, NOTATION = 1, 0
+GEN, NOTATION, LOCAL = 1, 0, 2
 
 _fresh = itertools.count()
 
@@ -357,6 +357,32 @@ class Heap:
         h.arrs = dict(self.arrs)
         h.alloc = self.alloc
         return h
+
+
+# "Class.field@GEN" / "list@GEN": every object that is generator-owned (ghost owner, fixed at allocation) may change -- the frame of code that works on the
+# growing molecule, whose identity changes from step to step (deep copies).  In the lists of named objects the sentinel below stands for "all of them"
+ALL_GEN = z3.Int("ALL_GEN_OWNED")
+
+
+def null_guard(expr, env, obj_t):
+    """`Class.f@prefix.bond_descriptors` with prefix None names no object (object id 0, which nothing reads), not whatever the fields of None happen to hold"""
+    try:
+        root = ast.parse(expr.strip(), mode="eval").body
+    except SyntaxError:
+        return obj_t
+    if not isinstance(root, (ast.Attribute, ast.Subscript)):
+        return obj_t
+    while isinstance(root, (ast.Attribute, ast.Subscript)):
+        root = root.value
+    if isinstance(root, ast.Call) and root.args:       # old(x.f) ...
+        root = root.args[0]
+        while isinstance(root, (ast.Attribute, ast.Subscript)):
+            root = root.value
+    if isinstance(root, ast.Name):
+        v = env.get(root.id)
+        if v is not None and v.s[0] in ("ref", "list", "opq") and len(v.s) > 2 and v.s[2] and z3.is_expr(v.t):
+            return z3.If(v.t == 0, z3.IntVal(0), obj_t)
+    return obj_t
 
 
 # array groups behind the modifies entries "list" / "dict" (and "list@expr" / "dict@expr")
@@ -755,6 +781,8 @@ class Engine:
         return self.typing_facts(st, V(lst.s[1], e), guard=z3.And(idx_t >= 0, idx_t < ln, lst.t >= 1, lst.t <= st.heap.alloc))
 
     def new_object(self, st, cname, owner=GEN):
+        if owner == GEN and self.contract is not None and self.contract.allocs_owner == "LOCAL":
+            owner = LOCAL       # working storage of code that drives generation (e.g. the list of mass fractions): not touched by "...@GEN" effects
         oid = st.heap.alloc + 1
         st.heap.alloc = oid
         oid = z3.simplify(oid)
@@ -1629,7 +1657,9 @@ class Engine:
         for n in names:
             if n not in bound:
                 if n in c.defaults:
-                    bound[n] = c.defaults[n]
+                    d_ = c.defaults[n]
+                    # a python default value (None, 0, ...) is a value like any other argument
+                    bound[n] = d_ if isinstance(d_, V) else (self.coerce(VNONE if d_ is None else py(d_), c.params[n]) if c.params.get(n) is not None else py(d_))
                 else:
                     raise Unsupported(f"missing argument {n} for {c.key}")
         out = {}
@@ -1730,7 +1760,7 @@ class Engine:
         for m in mods:
             if "@" in m:
                 base, expr = m.split("@", 1)
-                gran.setdefault(base, []).append(z3.simplify(lift(se.value(expr)).t))
+                gran.setdefault(base, []).append(ALL_GEN if expr.strip() == "GEN" else z3.simplify(null_guard(expr, env, lift(se.value(expr)).t)))
         mods = [m for m in mods if "@" not in m]
         self._gran = gran
         for exc, cnd, _ in raise_conds:
@@ -1911,7 +1941,12 @@ class Engine:
                 continue
             a = st.heap.arrs[nm]
             for ob_t in objs:
-                a = z3.Store(a, ob_t, fresh("gm!" + nm, a.sort().range()))
+                if ob_t.eq(ALL_GEN):
+                    own, junk = self.arr(st, "obj.owner"), fresh("gm!" + nm, a.sort())
+                    o_ = z3.Int(f"o!{next(_fresh)}")
+                    a = z3.Lambda([o_], z3.If(z3.Select(own, o_) == GEN, z3.Select(junk, o_), z3.Select(a, o_)))
+                else:
+                    a = z3.Store(a, ob_t, fresh("gm!" + nm, a.sort().range()))
             st.heap.arrs[nm] = a
 
     def site(self, node):
